@@ -3,7 +3,7 @@ from lib.coqterm import cbool, clist, copt
 
 ID = "C43"
 QUICK_N = 1500
-THOROUGH_N = 20000
+THOROUGH_N = 12000
 SHARD = 125
 COQ_PRELUDE = "From MV Require Import Model.View.\nOpen Scope N_scope.\n"
 RULE = ("a case is a history of 1..30 calls on one fresh View over a pool of 2..6 flow objects of all four types "
